@@ -1,5 +1,111 @@
-/- Line-protocol driver for the C04 model (stub until the model exists). -/
-import ForML.Model.Sexp
-open ForML
+/- Line-protocol driver for the C04 model (ForML.Model.Persist).
 
-def main : IO Unit := driverLoop (fun _ => .atom "no-model")
+  in : (case <comp> <perf> (<action> ...))
+         comp   = (comp ((uid gid tag stateful trained) ...) ((pub sub) ...) applyHead applyTail trainHead trainTail)
+         perf   = (error) | <comp>
+         action = (train|apply|perftrack|serve  none|<generation>  run  hp  shift)
+       every action runs on the case renamed by `+ shift` (uids and gids): a fresh expansion
+  out: (ok (wf <plain> <perf> (<the conjuncts of wfPlain>)) (ptags <tag|none> ...) (<step> ...) (perfmodel <agrees>))
+         perfmodel: the perftrack composition derived in the model (`Comp.perfOf`) is refused iff the extracted one
+         was, and otherwise persists the same occurrences position by position
+         step = (ok <number of generations afterwards> (<obs> ...)) | (error <name>)
+         obs  = (a tag hp <state>) | (t tag hp <state>)       state = none | (tag run hp none|(ptag prun))
+-/
+import ForML.Model.Sexp
+import ForML.Model.Persist
+import ForML.Model.PersistCopy
+open ForML ForML.Persist
+
+def bool? : Sexp → Option Bool
+  | .atom "true" => some true
+  | .atom "false" => some false
+  | _ => none
+
+def node? : Sexp → Option Node
+  | .list [u, g, t, s, tr] => do pure ⟨← u.nat?, ← g.nat?, ← t.nat?, ← bool? s, ← bool? tr⟩
+  | _ => none
+
+def edge? : Sexp → Option (Nat × Nat)
+  | .list [p, s] => do pure (← p.nat?, ← s.nat?)
+  | _ => none
+
+def comp? : Sexp → Option Comp
+  | .list [.atom "comp", .list ns, .list es, ah, at_, th, tt] => do
+    pure ⟨← ns.mapM node?, ← es.mapM edge?, ← ah.nat?, ← at_.nat?, ← th.nat?, ← tt.nat?⟩
+  | _ => none
+
+def perf? : Sexp → Option (Except Err Comp)
+  | .list [.atom "error"] => some (.error .topology)
+  | x => (comp? x).map .ok
+
+def kind? : Sexp → Option Kind
+  | .atom "train" => some .train
+  | .atom "apply" => some .apply
+  | .atom "perftrack" => some .perftrack
+  | .atom "serve" => some .serve
+  | _ => none
+
+def gen? : Sexp → Option (Option Nat)
+  | .atom "none" => some none
+  | x => x.nat?.map some
+
+def action? : Sexp → Option (Action × Nat)
+  | .list [k, g, r, h, s] => do pure (⟨← kind? k, ← gen? g, ← r.nat?, ← h.nat?⟩, ← s.nat?)
+  | _ => none
+
+def originSexp (o : Origin) : Sexp :=
+  .list [Sexp.ofNat o.tag, Sexp.ofNat o.run, Sexp.ofNat o.hp,
+    match o.prev with
+    | none => .atom "none"
+    | some (t, r) => .list [Sexp.ofNat t, Sexp.ofNat r]]
+
+def stateSexp : Option Origin → Sexp
+  | none => .atom "none"
+  | some o => originSexp o
+
+def obsSexp : Obs → Sexp
+  | .applied t h s => .list [.atom "a", Sexp.ofNat t, Sexp.ofNat h, stateSexp s]
+  | .trained t h s => .list [.atom "t", Sexp.ofNat t, Sexp.ofNat h, stateSexp s]
+
+def errName : Err → String
+  | .invalidGeneration => "invalid-generation"
+  | .unknownNode => "unknown-node"
+  | .index => "index"
+  | .assembly => "assembly"
+  | .topology => "topology"
+
+def runActions (cs : Case) : Registry → List (Action × Nat) → List Sexp
+  | _, [] => []
+  | reg, (a, k) :: rest =>
+    match step (cs.rename (· + k) (· + k)) reg a with
+    | .error e => .list [.atom "error", .atom (errName e)] :: runActions cs reg rest
+    | .ok (reg', obs) =>
+      .list [.atom "ok", Sexp.ofNat reg'.length, .list (obs.map obsSexp)] :: runActions cs reg' rest
+
+/-- does the extracted perftrack composition agree with the one the model derives from the plain composition? -/
+def perfAgrees (plain : Comp) (perf : Except Err Comp) : Bool :=
+  match plain.perfOf (· + 500000), perf with
+  | .ok p, .ok q => p.persistentTags == q.persistentTags
+  | .error _, .error _ => true
+  | _, _ => false
+
+def stepC04 : Sexp → Sexp
+  | .list [.atom "case", c, p, .list acts] =>
+    match comp? c, perf? p, acts.mapM action? with
+    | some plain, some perf, some acts =>
+      let cs : Case := ⟨plain, perf⟩
+      .list [.atom "ok",
+        .list [.atom "wf", Sexp.ofBool plain.wfPlain, Sexp.ofBool cs.wfPerf,
+          .list [Sexp.ofBool plain.tagsConsistent, Sexp.ofBool plain.uidsDistinct, Sexp.ofBool plain.trainedStateful,
+            Sexp.ofBool plain.trainersVisited, Sexp.ofBool (plain.appliedDerived plain.applyHead plain.applyTail),
+            Sexp.ofBool (plain.appliedDerived plain.trainHead plain.trainTail),
+            Sexp.ofBool (plain.noTrainer plain.applyHead plain.applyTail)]],
+        .list (.atom "ptags" :: plain.persistentTags.map (fun t => match t with
+          | some t => Sexp.ofNat t
+          | none => .atom "none")),
+        .list (runActions cs [] acts),
+        .list [.atom "perfmodel", Sexp.ofBool (perfAgrees plain perf)]]
+    | _, _, _ => .atom "bad-op"
+  | _ => .atom "bad-op"
+
+def main : IO Unit := driverLoop stepC04
